@@ -19,7 +19,7 @@ TRUSTED = ['threaded code: the real MetadataProviderServer / DataProviderServer 
            'request lines are abstracted to classes for the model (Model/Shell.v); the scenario generator knows the class of each line by construction (decoding itself is C06 / C09)']
 ASSUMPTIONS = ['the close request is the last line the Proxy Adapter sends; exception handlers return booleans; adapter calls return or raise an Exception']
 
-LIB_RAISE = ['AccessError', 'CreditsError', 'NotificationError', 'ItemsError', 'SchemaError', 'ConflictingSessionError', 'MetadataProviderError', 'RuntimeError', 'KeyError']
+LIB_RAISE = ['AccessError', 'CreditsError', 'NotificationError', 'ItemsError', 'SchemaError', 'ConflictingSessionError', 'MetadataProviderError', 'RuntimeError', 'KeyError', 'EmptyError']
 
 
 def B(b):
@@ -169,7 +169,7 @@ def finish(rng, kind, lines):
     sc = ShellScenario(kind, lines, chunks, pool=pool, cpu=3, handler=handler, end=end, fail_send=fail_send,
                        start_managed=rng.random() < 0.35, app_close=rng.choice([0] * 8 + [1, 2]),
                        user=rng.choice([None, None, '', 'us er', 'u|1']), password=rng.choice([None, None, '', 'p w']),
-                       init_outcome=rng.choice(['ret'] * 6 + ['provider', 'other', 'type', 'attr']))
+                       init_outcome=rng.choice(['ret'] * 7 + ['provider', 'other', 'type', 'attr', 'empty']))
     if end in ('eof', 'error') and chunks and chunks[-1] and rng.random() < 0.35:
         # the fault hits in the middle of the last line: between CR and LF, before the terminator, inside a token
         last = lines[chunks[-1][-1]].text
